@@ -57,8 +57,20 @@ def derivative(poly: PolyLike, *diffvars: Union[ndpoly, str, int]) -> ndpoly:
             (exponent[idx] * coefficient.T).T
             for exponent, coefficient in zip(exponents, poly.coefficients)
         ]
-        exponents[:, idx] -= 1
-        assert not numpy.any(exponents < 0)
+        # terms free of the variable vanish; drop them rather than letting
+        # their (unsigned) exponent wrap around below zero
+        keep = exponents[:, idx] > 0
+        if numpy.any(keep):
+            exponents = exponents[keep]
+            coefficients = [
+                coefficient
+                for coefficient, keep_ in zip(coefficients, keep)
+                if keep_
+            ]
+            exponents[:, idx] -= 1
+        else:
+            exponents = exponents[:1] * 0
+            coefficients = [coefficients[0] * 0]
 
         poly = numpoly.ndpoly.from_attributes(
             exponents=exponents,
